@@ -11,6 +11,7 @@ import (
 	"encoding/json"
 	"fmt"
 	"strings"
+	"verifharness/ref/boxwalk"
 
 	"github.com/Eyevinn/mp4ff/bits"
 	"github.com/Eyevinn/mp4ff/mp4"
@@ -45,7 +46,7 @@ func init() {
 			"track ids passed to the *ToTrack calls exist in the fragment; decode times passed with the samples are consistent (cumulative durations)",
 			"nothing is placed between moof and mdat (the file decoder documents that it rejects it); file-level emsg boxes sit directly before their fragment, after styp/sidx",
 			"a mid-history Encode is only made while EncOptimize is OptimizeNone (Encode with OptimizeTrun is documented to rewrite tfhd/trun: OptimizeTfhdTrun 'Don't optimize again'); Size and Info are pure observers at any time",
-		"API calls or encoders that return an error put the fragment outside the property: counted in op_errors, the fragment is left out of the file",
+			"API calls or encoders that return an error put the fragment outside the property: counted in op_errors, the fragment is left out of the file",
 			"reference expansion follows ISO/IEC 14496-12 8.8.7/8.8.8 (ref/frag), box boundaries from ref/boxwalk",
 		},
 		NumCases: func(env *runner.Env) int {
@@ -240,6 +241,13 @@ func check(c *runner.Ctx, h *genfrag.History) {
 	if berr != nil {
 		c.Violation("build/"+errClass(berr), "the encoded pieces could not be assembled into a file: "+berr.Error(), map[string]interface{}{"history": h})
 		return
+	}
+	if len(h.Tracks) >= 2 && len(b.Bytes)%3 == 1 {
+		// the trex boxes of the written init in another order than the track ids (their order in mvex
+		// is free): reversed on the byte level, all trex boxes have the same size
+		if reverseTrex(b.Bytes) {
+			c.Count("inits_with_trex_boxes_not_in_track_order", 1)
+		}
 	}
 	enc := "Encode"
 	if h.SW {
@@ -483,4 +491,45 @@ func describe(frags []*genfrag.BuiltFrag, h *genfrag.History) []string {
 		out = append(out, s)
 	}
 	return out
+}
+
+// reverseTrex reverses the order of the trex boxes inside moov/mvex of file bytes in place
+// (only when they are adjacent and of equal size); it reports whether anything moved.
+func reverseTrex(file []byte) bool {
+	nodes, err := boxwalk.Walk(file)
+	if err != nil {
+		return false
+	}
+	for _, n := range nodes {
+		if n.Type != "moov" {
+			continue
+		}
+		for _, m := range n.Children {
+			if m.Type != "mvex" {
+				continue
+			}
+			var tr []*boxwalk.Node
+			for _, t := range m.Children {
+				if t.Type == "trex" {
+					if len(tr) > 0 && (t.Start != tr[len(tr)-1].Start+tr[len(tr)-1].Size || t.Size != tr[0].Size) {
+						return false
+					}
+					tr = append(tr, t)
+				}
+			}
+			if len(tr) < 2 {
+				return false
+			}
+			sz := tr[0].Size
+			tmp := make([]byte, sz)
+			for i, j := 0, len(tr)-1; i < j; i, j = i+1, j-1 {
+				a, b := file[tr[i].Start:tr[i].Start+sz], file[tr[j].Start:tr[j].Start+sz]
+				copy(tmp, a)
+				copy(a, b)
+				copy(b, tmp)
+			}
+			return true
+		}
+	}
+	return false
 }
